@@ -836,6 +836,48 @@ func (c *Ctx) c10Paths() {
 		return
 	}
 	a, b := fields(byName, hashA), fields(byHash, hashB)
+	if len(a) == 0 && len(b) == 0 {
+		// both constructors may delegate to one shared constructor: newMbox(name, hash)
+		soleDeleg := func(fn *ssa.Function) *ssa.Call {
+			var d *ssa.Call
+			for _, ret := range successReturns(fn) {
+				res := eng.ReturnResults(ret)
+				if len(res) != 1 {
+					return nil
+				}
+				call, ok := res[0].(*ssa.Call)
+				if !ok || d != nil && d != call {
+					return nil
+				}
+				d = call
+			}
+			return d
+		}
+		da, db := soleDeleg(byName), soleDeleg(byHash)
+		if da != nil && db != nil {
+			g := eng.StaticCallee(da.Common())
+			if g != nil && g == eng.StaticCallee(db.Common()) && eng.FuncPkgPath(g) == eng.FuncPkgPath(byName) && len(g.Blocks) > 0 {
+				// the parameter of g that receives the hash in both
+				j := -1
+				for i := range da.Call.Args {
+					if i < len(db.Call.Args) && da.Call.Args[i] == hashA && db.Call.Args[i] == hashB {
+						j = i
+					}
+				}
+				if j >= 0 && j < len(g.Params) {
+					shared := fields(g, g.Params[j])
+					for _, f := range []string{"path", "indexPath", "dirName", "RWMutex"} {
+						if shared[f] == "" {
+							r.Bad("C10/PATH/agree", "mbox."+f, p.Pos(g.Pos()), "field is not set by the shared constructor %s", shortFn(g))
+						} else {
+							r.Ok("C10/PATH/agree", "mbox."+f, p.Pos(g.Pos()), "both constructors return %s(…, hash): both = %s", shortFn(g), shared[f])
+						}
+					}
+					return
+				}
+			}
+		}
+	}
 	if len(a) == 0 {
 		// the by-name constructor may delegate: return mboxFromHash(HashMailboxName(name))
 		var deleg *ssa.Call
